@@ -94,7 +94,8 @@ impl Iterator for SortingMultiReaderIterator<'_> {
         if let Some(heap_entry) = heap_entry {
             let mut m = heap_entry.m;
             m.index = self.index;
-            self.index += 1;
+            // the counter may pass the last index (the message that got it was the last representable one)
+            self.index = self.index.wrapping_add(1);
             let mut it = heap_entry.it;
             let rank = heap_entry.rank;
             if let Some(m) = it.next() {
@@ -163,7 +164,7 @@ impl<'a, O: Iterator<Item = Box<dyn Iterator<Item = DltMessage> + 'a>>> Iterator
         while let Some(cur_it) = self.cur_it.as_mut() {
             if let Some(mut msg) = cur_it.next() {
                 msg.index = self.index;
-                self.index += 1;
+                self.index = self.index.wrapping_add(1);
                 return Some(msg);
             }
             self.cur_it = self.its.next();
